@@ -152,6 +152,7 @@ class Prop:
         # ---------------- verdicts
         obligations = []   # dicts
         violations = []
+        pending = []
         known_lines = []
         undecided = list(infra)
         for c in contracts:
@@ -185,7 +186,7 @@ class Prop:
                     ob(nm, 'discharged')
                 else:
                     o = ob(nm, 'refuted')
-                    violations.append(self.make_violation(c, sig, 'safety:' + pid, nm, r, wd, desc))
+                    pending.append((c, sig, 'safety:' + pid, nm, r, wd, desc))
             for name, e in c.ensures:
                 if name in fnd:
                     f = fnd[name]
@@ -205,12 +206,12 @@ class Prop:
                                 ob(name + '__pinned', 'discharged', note='behaviour on S is pinned: ' + f.pinned)
                             continue
                         else:
-                            violations.append(self.make_violation(c, sig, name + '__orig', name, r, wd,
+                            pending.append((c, sig, name + '__orig', name, r, wd,
                                                                   'clause fails but the recorded witness no longer breaches it'))
                             ob(name, 'refuted')
                             continue
                     which = name + '__outsideS' if sw != 'SUCCESS' else name + '__pinned'
-                    violations.append(self.make_violation(c, sig, which, name, r, wd, 'fails outside the recorded finding'))
+                    pending.append((c, sig, which, name, r, wd, 'fails outside the recorded finding'))
                     ob(name, 'refuted')
                     continue
                 st = r['clauses'][name]
@@ -218,7 +219,9 @@ class Prop:
                     ob(name, 'discharged')
                 else:
                     ob(name, 'refuted')
-                    violations.append(self.make_violation(c, sig, name, name, r, wd, ''))
+                    pending.append((c, sig, name, name, r, wd, ''))
+        with ThreadPoolExecutor(max_workers=NPROC) as ex:
+            violations = list(ex.map(lambda a: self.make_violation(*a), pending))
         # ---------------- report
         for l in known_lines:
             print(l)
